@@ -211,12 +211,24 @@ def run_case(case):
             objs[ui].value = jax.numpy.asarray(base[ui])
         model.update()
         model.auto_update = auto
-        n_rounds = 2
+        n_rounds = 3
+        base_state = model.state     # the coherent starting state, restored before the third round
+        skip_units0, skip_names0 = list(skip_units), list(skip_names)
         m0_now = {ui: units[ui]["m0"] for ui in drawn if units[ui]["kind"] == "root"}
         shared: dict = {}
         prev = dict(base)
         for rd in range(n_rounds):
             seed_int = int(rng.integers(0, 2 ** 31 - 1))
+            if rd == 2:
+                # posterior-predictive pattern: an earlier state is restored (model.state = saved) and everything below the
+                # roots is simulated again with the roots skipped: children sit at f(RESTORED parents)
+                model.state = base_state
+                prev = dict(base)
+                m0_now = {ui: units[ui]["m0"] for ui in drawn if units[ui]["kind"] == "root"}
+                roots_ = [ui for ui in drawn if units[ui]["kind"] == "root" and ui not in skip_units0]
+                skip_units = skip_units0 + roots_
+                skip_names = skip_names0 + [units[ui]["name"] for ui in roots_]
+                res.ev("simulate_after_state_restore_with_roots_skipped")
             before_state = {k: (None if v.value is None else np.asarray(v.value).copy()) for k, v in model.state.items()}
             # in the second round a leaf variable gets a placeholder of another shape (two stacked samples): the draw
             # follows the shape of the value that is current when simulate() is called
@@ -230,7 +242,7 @@ def run_case(case):
                     prev[lf] = ph
                     res.ev("placeholder_shape_changed_between_simulations")
             # hyper-parameters change right before the simulation (with auto-update off: no update() in between)
-            for ui in drawn:
+            for ui in (drawn if rd < 2 else []):
                 if units[ui].get("hyper"):
                     m0_now[ui] = float(rng.integers(-50, 51)) + (2000.0 if rd == 0 else -2000.0)
                     model.vars["h_" + units[ui]["name"]].value = jax.numpy.asarray(m0_now[ui], jax.numpy.float32)
@@ -296,7 +308,7 @@ def run_case(case):
                         shared[(ks[i], ks[j])] = shared.get((ks[i], ks[j]), 0) + 1
                         # a chance coincidence has probability ~1e-4 per element: demand >= 3
                         # coinciding elements, or a coincidence in every simulation round
-                        if a_.size >= 3 or shared[(ks[i], ks[j])] == n_rounds:
+                        if a_.size >= 3 or shared[(ks[i], ks[j])] == 2:
                             res.violation("shared-noise", f"variables {units[ks[i]]['name']} and {units[ks[j]]['name']} were "
                                           f"drawn with identical standardised noise {a_[:3].tolist()} (keys not split)", w)
             # untouched: everything that is not a drawn variable's value must be consistent after update
@@ -326,6 +338,7 @@ def run_case(case):
                         res.violation("incoherent-after-update", f"log_prob of {u['name']} not recomputed from current values", w)
             _ = before_state
             prev = new
+        skip_units, skip_names = skip_units0, skip_names0
         # determinism and auto-update independence from a common starting point
         s = int(rng.integers(0, 2 ** 31 - 1))
         pre = {ui: jax.numpy.asarray(base[ui]) for ui in drawn}
